@@ -340,6 +340,12 @@ type HFnObj struct {
 }
 type HKey string
 
+// embeds a pointer to its own type: Go resolves X at depth 0
+type HSelf struct {
+	*HSelf
+	X int
+}
+
 type HValOuter struct {
 	HInner
 	K int
@@ -528,6 +534,8 @@ func c16Handwritten(c *runner.Ctx, idx uint64) {
 		{"VarsM (named map with a method)", VarsM{"cnt": 3, "label": "x"}, []probe{{"cnt", 1}, {"label", 1}, {"Size()", 1}, {"cnt + Size()", 1}, {"missing", 0}}, []string{"cnt", "label", "Size"}},
 		{"TypedM (map[string]int with a method)", TypedM{"uno": 1, "due": 2}, []probe{{"uno", 1}, {"due + uno", 1}, {"Total()", 1}, {"tre", -1}}, []string{"uno", "due", "Total"}},
 		{"map[string]int", map[string]int{"uno": 1}, []probe{{"uno", 1}, {"uno + 1", 1}}, []string{"uno"}},
+		{"HSelf (embeds *HSelf)", HSelf{X: 1}, []probe{{"X", 1}, {"X + 1", 1}, {"HSelf", 1}, {"Y", 0}}, []string{"X", "HSelf"}},
+		{"*HSelf", &HSelf{HSelf: &HSelf{X: 2}, X: 1}, []probe{{"X", 1}, {"HSelf.X", 1}}, []string{"X", "HSelf"}},
 		{"map[string]func() int", map[string]func() int{"f": func() int { return 5 }}, []probe{{"f()", 1}, {"f() + 1", 1}}, []string{"f"}},
 	}
 	for _, cs := range cases {
